@@ -1280,6 +1280,27 @@ DISCONTINUOUS = {"isin", "copysign", "floor", "ceil", "trunc", "sign", "equal", 
                  }
 
 
+# periodic functions of a large inexact argument are ill-conditioned (the argument reduction turns a relative rounding
+# difference of 1e-16 into an absolute one of |x| * 1e-16): only applied to exact values or to moderate magnitudes
+PERIODIC = {"sin", "cos", "tan"}
+PERIODIC_MAX_INEXACT = 1.0e4
+
+
+def _ill_conditioned(name, sh, args):
+    if name not in PERIODIC:
+        return False
+    for i in args:
+        if sh.exact[i] and not sh.random[i]:
+            continue
+        v = np.asarray(sh.values[i])
+        if v.size and v.dtype.kind in "fc":
+            with np.errstate(all="ignore"):
+                m = np.abs(v[np.isfinite(v)])
+            if m.size and float(m.max()) > PERIODIC_MAX_INEXACT:
+                return True
+    return False
+
+
 class Shadow:
     """NumPy evaluation of a program."""
 
@@ -1531,6 +1552,8 @@ def generate_program(tp: Tape, max_steps=8, max_extent=12, profile="general", n_
             continue
         if name in DISCONTINUOUS and any(not sh.exact[i] or sh.random[i] for i in args):
             continue
+        if _ill_conditioned(name, sh, args):
+            continue
         step = dict(op=name, args=args, p=p)
         if name == "searchsorted":
             # x1 must be sorted: only allowed directly on an input, which is then flagged sorted
@@ -1705,6 +1728,8 @@ def valid_program(prog) -> bool:
             sh = shadow_of(prog)
         for st in prog["steps"]:
             if st["op"] in DISCONTINUOUS and any(not sh.exact[i] or sh.random[i] for i in st["args"]):
+                return False
+            if _ill_conditioned(st["op"], sh, st["args"]):
                 return False
         return all(o < len(sh.values) for o in prog["outputs"])
     except Exception:  # noqa: BLE001
